@@ -108,10 +108,14 @@ class Outcome:
 
 
 def write_evidence(prop, tier, seed, level, coverage, assumptions, wall_s, violations):
-    os.makedirs(EVIDENCE_DIR, exist_ok=True)
+    evdir = EVIDENCE_DIR
+    if os.environ.get('VERIF_ONLY'):
+        # debugging aid (corpus restricted by a regular expression): never overwrite the committed evidence
+        evdir = os.path.join(os.path.dirname(EVIDENCE_DIR), 'work', 'evidence_only')
+    os.makedirs(evdir, exist_ok=True)
     ev = {'property_id': prop, 'tier': tier, 'seed': int(seed), 'level': level, 'coverage': coverage,
           'assumptions': assumptions, 'wall_s': round(wall_s, 2), 'violations': int(violations)}
-    path = os.path.join(EVIDENCE_DIR, f'{prop}.json')
+    path = os.path.join(evdir, f'{prop}.json')
     tmp = path + '.tmp'
     with open(tmp, 'w') as f:
         json.dump(ev, f, indent=1, sort_keys=True)
